@@ -544,7 +544,26 @@ impl DocGen {
     /// one top-level markup item (no trailing newline)
     pub fn item(&mut self) -> String {
         let depth = self.shape.range(1, 3);
-        match self.shape.weighted(&[8, 5, 6, 5, 3, 3, 4, 3, 3, 2, 2, 2, 4, 2, 2, 2, 1, 3]) {
+        match self.shape.weighted(&[8, 5, 6, 5, 3, 3, 4, 3, 3, 2, 2, 2, 4, 2, 2, 2, 1, 3, 2, 1]) {
+            18 => {
+                // a partially applied function bound to a short name from a small pool, and a call
+                // of it: documents (and twins) share the names, the bound arguments are values
+                let name = *self.shape.pick(&["t2", "t3", "tbl", "g2", "fig"]);
+                let base = *self.shape.pick(&["table", "grid", "figure", "box"]);
+                let cols = self.deco.range(1, 5);
+                let n = self.shape.range(0, 8);
+                let mut cells = Vec::new();
+                for _ in 0..n {
+                    let w = self.words(1, 2);
+                    cells.push(format!("[{}]", w));
+                }
+                format!("#let {} = {}.with(columns: {})\n#{}({})", name, base, cols, name, cells.join(", "))
+            }
+            19 => {
+                // one pass of the formatter is not a fixed point on this one
+                let pad = "x".repeat(self.shape.range(40, 60));
+                format!("#figure(box(`{}{}\nsecond {}`))", pad, " ".repeat(70), self.word())
+            }
             17 => {
                 // a dot chain whose head is long enough to sit between the chain-width thresholds
                 // of different page widths
